@@ -118,3 +118,33 @@ def logit_noise(rec, k=8.0):
         if f.numel():
             m = max(m, float(f.abs().max()))
     return k * ulp32(m) if m > 0 else 0.0
+
+
+def td_to64(td):
+    """copy of a TensorDict with every float32 leaf in float64"""
+    td = td.clone()
+    for k in list(td.keys()):
+        v = td[k]
+        if isinstance(v, torch.Tensor) and v.dtype == torch.float32:
+            td[k] = v.double()
+    return td
+
+
+class Float64:
+    """`with Float64(policy): ...` runs the same policy code in double precision (parameters float32 -> float64 -> float32 is
+    exact). Used to decide whether a float32 discrepancy between two computations of the same quantity is conditioning
+    (vanishes in float64: unscaled CVRPTW intermediates reach 1e4, float32 log-probs then differ by up to ~0.2 between batch
+    layouts on correct code) or logic (persists)."""
+
+    def __init__(self, *modules):
+        self.modules = modules
+
+    def __enter__(self):
+        for m in self.modules:
+            m.double()
+        return self
+
+    def __exit__(self, *exc):
+        for m in self.modules:
+            m.float()
+        return False
